@@ -11,7 +11,7 @@ def run(ctx):
     q = ctx['tier'] == 'quick'
     s = ctx['seed'] + 9
     return run_parts(ctx, [
-        Part('joins', 'corr_joins', 'run', [s, 300 if q else 5000, None], specs={'empty_spec', 'sound_spec'}),
+        Part('joins', 'corr_joins', 'run', [s, 300 if q else 5000, None, 0.15, 0.5], specs={'empty_spec', 'sound_spec'}),
         Part('filter_tables', 'corr_filters', 'run_tables', [s, 120 if q else 2500], specs={'empty_spec', 'sound_spec'}),
         Part('filter_pair', 'corr_filters', 'run_pairs', [s, 300 if q else 5000], specs={'fp_empty_spec'}),
     ], RULE)
